@@ -172,6 +172,13 @@ CLAIMED = {
         engine='pyvc+sqlvc',
         design_ref='7/C09',
     ),
+    'C15': dict(
+        text='(a) regions_to_bits_rep / regions_bits_rep_to_regions verified with 64-bit-vector loop invariants (bit b set iff some selected region has id b+1; decode returns exactly the sub-sequence of set regions) and a z3 lemma composing the two contracts into the round trip; '
+        '(b) BatchFormatVersion.db_spec followed by each get_spec_* reader executed symbolically on the real code for every format version 2..7 and all 32 key-presence shapes of a spec (list lengths and contents symbolic): the readers return the original secrets, service account, file flags and machine spec.',
+        note=COMMON_NOTE + 'Preconditions: region ids unique in [1,63], selected regions are keys of the mapping; job specs have the validator\'s shape; version 1 is the identity. (b) is whole-composition symbolic execution (writer result fed to the reader), not a modular proof.',
+        technique='loop-invariant contracts (bit-vectors) + symbolic composition of real writer and readers, pyvc -> z3',
+        design_ref='7/C15',
+    ),
 }
 
 NOT_YET = 'not yet brought within the verifier\'s reach in this build (planned in DESIGN.md section 7); no claim is made'
